@@ -3,11 +3,16 @@ package main
 import (
 	"context"
 	"fmt"
+	"io"
+	"strings"
 	"sync"
 	"time"
 
 	goat "github.com/avos-io/goat"
+	"github.com/avos-io/goat/gen/goatorepo"
 	"google.golang.org/grpc"
+	"google.golang.org/grpc/metadata"
+	"google.golang.org/protobuf/types/known/wrapperspb"
 	"google.golang.org/grpc/stats"
 )
 
@@ -98,4 +103,114 @@ func c06CancelInsideCloseSend(r *Run) {
 		r.Eval(fmt.Sprintf("closesendcancel/%s/%d", method, rep), true)
 		r.Count("c06.closesendcancel")
 	}
+}
+
+// c06ConcurrentHeaderAndSend: a bidi handler with a producer goroutine: one goroutine calls SendHeader
+// while another calls SendMsg (the API allows it: one sender for messages, headers from the handler),
+// at a moment when the connection's writer is busy with another call's response that the peer is slow
+// to take. However the two interleave, the stream's response metadata appears on exactly one envelope,
+// the first one, and the shape of the stream's envelopes is accepted by the protocol automaton.
+func c06ConcurrentHeaderAndSend(r *Run) {
+	if !r.Want("hdrsend") {
+		return
+	}
+	for rep, reps := 0, r.Scale(4, 40); rep < reps && r.NumViolations() <= 4; rep++ {
+		in := map[string]any{"rep": rep, "handler": "SendHeader on one goroutine, SendMsg on another", "writer": "busy: the peer is slow to take an earlier unary response"}
+		r.Progress("hdrsend", in)
+		sc := NewScript(0) // unbuffered Out: the server's writer blocks until the peer reads
+		impl := &Impl{}
+		impl.SetUnary(func(ctx context.Context, req []byte) ([]byte, error) { return req, nil })
+		impl.SetStream(func(m string, ss grpc.ServerStream) error {
+			done := make(chan struct{})
+			go func() {
+				defer close(done)
+				time.Sleep(time.Duration(rep%4) * 500 * time.Microsecond)
+				sendB(ss, []byte("produced"))
+			}()
+			ss.SendHeader(metadata.Pairs("k", "v"))
+			<-done
+			return nil
+		})
+		srv := goat.NewServer("srv")
+		srv.RegisterService(&echoDesc, impl)
+		served := make(chan error, 1)
+		go func() { served <- srv.Serve(context.Background(), sc) }()
+		body, _ := goat_marshal(&wrapperspb.BytesValue{Value: []byte("u")})
+		hdr := func(m string) *goatorepo.RequestHeader {
+			return &goatorepo.RequestHeader{Method: m, Source: "c", Destination: "srv"}
+		}
+		ok := true
+		for _, e := range []*Rpc{{Id: 1, Header: hdr(mUnary), Body: &goatorepo.Body{Data: body}}, {Id: 2, Header: hdr(mBidi)}} {
+			select {
+			case sc.In <- e:
+			case <-time.After(hangTimeout):
+				r.Violate("hdrsend.stall", "history", "the server stopped reading", in, goroutineDump(), nil)
+				ok = false
+			}
+		}
+		time.Sleep(5 * time.Millisecond) // the writer holds the unary response; header and message queue up behind it
+		var got []*Rpc
+		deadline := time.After(hangTimeout)
+		for ok {
+			select {
+			case e := <-sc.Out:
+				if e.Id == 2 {
+					got = append(got, e)
+				}
+			case <-deadline:
+				r.Violate("hdrsend.stall", "history", "the stream's trailer was never written", in, goroutineDump(), nil)
+				ok = false
+			}
+			if n := len(got); n > 0 && got[n-1].Trailer != nil {
+				break
+			}
+		}
+		if ok {
+			sh := make([]string, len(got))
+			withMD := 0
+			for i, e := range got {
+				sh[i] = shapeOf(e)
+				if len(e.GetHeader().GetHeaders()) > 0 {
+					withMD++
+					if i != 0 {
+						r.Violate("hdrsend.metadata", "history", "response metadata on an envelope that is not the stream's first response envelope", in, strings.Join(wireBriefRpcs(got), " "), "metadata on envelope #1 only")
+					}
+				}
+			}
+			if withMD != 1 {
+				r.Violate("hdrsend.metadata", "history", "the stream's response metadata must appear on exactly one envelope", in, strings.Join(wireBriefRpcs(got), " "), "exactly one")
+			}
+			r.Case("accS", "stream|"+strings.Join(sh, ";"), "accept")
+		}
+		r.Eval(fmt.Sprintf("hdrsend/%d", rep), true)
+		r.Count("c06.hdrsend")
+		srv.Stop()
+		sc.FailRead(io.EOF)
+		go func() {
+			for range sc.Out {
+			}
+		}()
+		within(hangTimeout, func() { <-served })
+	}
+}
+
+func wireBriefRpcs(es []*Rpc) []string {
+	out := make([]string, len(es))
+	for i, e := range es {
+		s := ""
+		if e.Body != nil {
+			s += "B"
+		}
+		if e.Trailer != nil {
+			s += "T"
+		}
+		if s == "" {
+			s = "H"
+		}
+		if len(e.GetHeader().GetHeaders()) > 0 {
+			s += "+md"
+		}
+		out[i] = s
+	}
+	return out
 }
